@@ -362,6 +362,14 @@ func C18(ctx *core.Ctx) {
 				}
 				mc := k.of(x.X)
 				kc := k.of(x.Index)
+				// identity keys are declared attributes (Name, ID, …) as written, not normalised text
+				if kcall, isCall := CallValue(x.Index); isCall && mc != cNone {
+					if b, isB := x.Index.Type().Underlying().(*types.Basic); isB && b.Kind() == types.String {
+						n["lkid"]++
+						ctx.Violate("C18.R1", QName(f)+sprintf(" › presence test (computed key #%d) uses the declared identity as key", n["lkid"]), cc.IPos(in),
+							"the lookup key is computed by "+kcall.ShortName()+" instead of being the declared name: declarations whose names differ only in what that function erases are conflated, so a rename that breaks the wire (topic suffix / method name) is not reported as removed")
+					}
+				}
 				if mc == cNone || kc == cNone {
 					return
 				}
@@ -573,12 +581,24 @@ func C18(ctx *core.Ctx) {
 			for _, c := range ssax.Calls(ct) {
 				if c.Static == ct && fieldNameOfValue(c.Common.Args[1]) == tf && fieldNameOfValue(c.Common.Args[2]) == tf && k.of(c.Common.Args[1]) == cOld && k.of(c.Common.Args[2]) == cNew {
 					// the components come from the resolved (underlying) types and warn is passed through
-					if IsParam(c.Common.Args[3], ct, 3) {
+					resolved := func(v ssa.Value) bool {
+						u, isU := ssax.Strip(v).(*ssa.UnOp)
+						if !isU {
+							return false
+						}
+						fa, isFA := u.X.(*ssa.FieldAddr)
+						if !isFA {
+							return false
+						}
+						rc, isC := CallValue(fa.X)
+						return isC && rc.ShortName() == "UnderlyingType"
+					}
+					if IsParam(c.Common.Args[3], ct, 3) && resolved(c.Common.Args[1]) && resolved(c.Common.Args[2]) {
 						ok = true
 					}
 				}
 			}
-			ctx.Check(ok, "C18.R3", "checkType › recurses into ."+tf+" of both resolved types", cc.FPos(ct), "checkType(old."+tf+", new."+tf+", warn, …)", "nested "+tf+" of container types is not compared: a retyped element/key passes the audit")
+			ctx.Check(ok, "C18.R3", "checkType › recurses into ."+tf+" of both resolved types", cc.FPos(ct), "checkType(old."+tf+", new."+tf+", warn, …)", "nested "+tf+" of container types is not compared on the resolved types (a typedef'd container has no key/value type of its own): a retyped element/key behind a typedef passes the audit, and writing a typedef out is reported as a change")
 		}
 		// warn flag per caller
 		for _, f := range fns {
